@@ -86,7 +86,7 @@ GLOBAL_BODY_RULES = [
 ]
 
 GLOBAL_SIG_RULES = [
-    Rule('R2:pin-self', r"(?:mut )?self: (?:&'a mut )?Pin<&mut Self>", '&mut self', where='sig', why='A-pin'),
+    Rule('R2:pin-self', r"(?:mut )?self: (?:&(?:'a )?mut )?Pin<&mut Self>", '&mut self', where='sig', why='A-pin'),
     Rule('R2:lifetime-a', r"<'a>", '', where='sig', why="lifetime parameter only used by the pinned self"),
     Rule('R5:task-cx', r"&mut Context(?:<'_>)?", '&mut TaskCx', where='sig', why='task context is opaque (only forwarded to poll fns)'),
 ]
@@ -152,12 +152,15 @@ class Fn:
     sig_override: Optional[str] = None   # only generics/where rewrite; must be logged
     extra_params: str = ''
     lifts: List[Lift] = field(default_factory=list)
+    hoist: List[Tuple[str, str]] = field(default_factory=list)   # R4: (kind, name) of items declared inside the body
+    loops_optional: bool = False   # the invariants are used only if the body (still) has loops
 
 
 @dataclass
 class Impl:
     header: str                 # emitted header, e.g. 'impl<Res> InFlightRequests<Res>'
     parts: list = field(default_factory=list)
+    fx_type: Optional[str] = None
 
 
 @dataclass
@@ -171,6 +174,7 @@ class Unit:
     lemmas: List[str] = field(default_factory=list)
     fx_type: str = 'Fx'
     header: str = ''
+    accessor_guards: list = field(default_factory=list)   # (src, impl_re, fn, body_regex): R3 soundness guard
 
 
 HEADER = '''// GENERATED on every run by /verif/vx/extract.py from the current /repo working tree.
@@ -305,9 +309,11 @@ class Generated:
         return '\n'.join(self.lines) + '\n'
 
 
-def _insert_loop_invariants(body, invs, fname):
+def _insert_loop_invariants(body, invs, fname, optional=False):
     """Insert invariant text before the '{' of the i-th loop (`loop`/`while`/`for`) of body."""
-    if not invs:
+    if optional and not re.search(r'(?<![\w])(loop|while|for)\b', rl.mask(body)):
+        return body
+    if not invs and not re.search(r'(?<![\w])(loop|while|for)\b', rl.mask(body)):
         return body
     out = body
     offset = 0
@@ -337,8 +343,12 @@ def _insert_loop_invariants(body, invs, fname):
 
 
 def _insert_hints(body, hints, fname, log):
+    """hints: (anchor, proof_text) inserted after the line containing anchor, or
+    (anchor, proof_text, 'before') inserted before that line."""
     lost = []
-    for anchor, proof in hints:
+    for h in hints:
+        anchor, proof = h[0], h[1]
+        where = h[2] if len(h) > 2 else 'after'
         idx = body.find(anchor)
         if idx < 0 or body.find(anchor, idx + 1) >= 0:
             lost.append(anchor)
@@ -347,8 +357,11 @@ def _insert_hints(body, hints, fname, log):
         le = body.find('\n', idx + len(anchor))
         line_start = body.rfind('\n', 0, idx) + 1
         indent = re.match(r'[ \t]*', body[line_start:]).group(0)
-        block = '\n'.join(indent + l if l.strip() else '' for l in proof.strip('\n').split('\n'))
-        body = body[:le + 1] + block + '\n' + body[le + 1:]
+        block = '\n'.join(indent + l.strip() if l.strip() else '' for l in proof.strip('\n').split('\n'))
+        if where == 'before':
+            body = body[:line_start] + block + '\n' + body[line_start:]
+        else:
+            body = body[:le + 1] + block + '\n' + body[le + 1:]
     return body, lost
 
 
@@ -396,7 +409,15 @@ def build_unit(unit: Unit, outdir, repo=None):
         t = orig
         # drop doc comments / attributes on fields
         t2 = re.sub(r'(?m)^[ \t]*(///|//)[^\n]*\n', '', t)
-        t2 = re.sub(r'(?m)^[ \t]*#\[[^\]]*\]\n', '', t2)
+        while True:
+            mt = rl.mask(t2)
+            am = re.search(r'(?m)^[ \t]*#\[', mt)
+            if not am:
+                break
+            ae = rl.match_bracket(mt, mt.index('[', am.start()))
+            le2 = t2.find('\n', ae)
+            t2 = t2[:am.start()] + t2[le2 + 1:]
+        t2 = re.sub(r'#\[(?:source|from|pin)\] ?', '', t2)
         if t2 != t:
             log.append(dict(rule='R5:field-docs-attrs', part='type', count=1, matched=['doc comments / #[pin] attributes'], replaced_by='', why='A-pin; comments'))
         t = t2
@@ -412,7 +433,8 @@ def build_unit(unit: Unit, outdir, repo=None):
             if isinstance(r.expect, int) and r in item.rules and n != r.expect:
                 raise ExtractError('%s %s: rule %s fired %d times, expected %s' % (item.kind, item.name, r.id, n, r.expect))
         # widen visibility so spec functions may mention the fields
-        t = re.sub(r'(?m)^([ \t]+)(?!pub\b)(\w+: )', r'\1pub \2', t)
+        if item.kind == 'struct':
+            t = re.sub(r'(?m)^([ \t]+)(?!pub\b)(\w+: )', r'\1pub \2', t)
         t = re.sub(r'^(?!pub\b)', 'pub ', t)
         a, b = gen.add((item.attrs + '\n' if item.attrs else '') + t)
         prov['items'].append(dict(kind=item.kind, name=item.name, src=item.src,
@@ -465,7 +487,8 @@ def build_unit(unit: Unit, outdir, repo=None):
         nl = body.find('\n')
         return body[:nl + 1] + '        ' + pre.strip() + '\n' + body[nl + 1:]
 
-    def emit_fn(f: Fn, impl_header):
+    def emit_fn(f: Fn, impl_header, fx_type=None):
+        fx_type = fx_type or unit.fx_type
         text, masked = src(f.src)
         try:
             if f.impl:
@@ -484,6 +507,19 @@ def build_unit(unit: Unit, outdir, repo=None):
         log = []
         if attrs_orig.strip():
             log.append(dict(rule='R0:attrs-docs', part='sig', count=1, matched=[' '.join(attrs_orig.split())[:200]], replaced_by='', why='doc comments and attributes are not copied'))
+        # ---- R4 hoist items nested in the body
+        for kind, name in f.hoist:
+            mb = rl.mask(body)
+            hm = list(re.finditer(r'(?m)^[ \t]*%s %s\b' % (kind, re.escape(name)), mb))
+            if len(hm) != 1:
+                raise ExtractError('%s: nested %s %s matched %d times' % (f.name, kind, name, len(hm)))
+            bo_ = rl.find_block_open(mb, hm[0].end())
+            bc_ = rl.match_bracket(mb, bo_)
+            item_text = body[hm[0].start():bc_ + 1]
+            le_ = body.find('\n', bc_)
+            body = body[:hm[0].start()] + body[le_ + 1:]
+            hoisted.append('\n'.join(l[4:] if l.startswith('    ') else l for l in reindent(item_text, 0).split('\n')).replace(kind + ' ' + name, 'pub ' + kind + ' ' + name, 1))
+            log.append(dict(rule='R4:hoist', part='body', count=1, matched=[kind + ' ' + name], replaced_by='(moved to module level)', why='Verus does not support items declared inside a function body'))
         # ---- R8 lambda lifting (before other rules, so both halves get the same treatment)
         lifted = []
         for lift in f.lifts:
@@ -515,7 +551,7 @@ def build_unit(unit: Unit, outdir, repo=None):
             if f.extra_params:
                 extra.append(f.extra_params)
             if f.fx:
-                extra.append('Tracked(fx): Tracked<&mut %s>' % unit.fx_type)
+                extra.append('Tracked(fx): Tracked<&mut %s>' % fx_type)
             inner = head[po + 1:pc]
             ex = ', '.join(extra)
             if inner.strip() == '':
@@ -530,7 +566,7 @@ def build_unit(unit: Unit, outdir, repo=None):
         if f.emit_name:
             head = re.sub(r'\bfn %s\b' % re.escape(f.name), 'fn ' + f.emit_name, head, count=1)
             log.append(dict(rule='R4:rename', part='sig', count=1, matched=[f.name], replaced_by=f.emit_name, why='trait-impl method emitted as inherent method'))
-        body = _insert_loop_invariants(body, f.loops, f.name)
+        body = _insert_loop_invariants(body, f.loops, f.name, f.loops_optional)
         body, lost = _insert_hints(body, f.hints, f.name, log)
         hints_lost.extend((f.name, a) for a in lost)
         body = add_pre(body, f.pre)
@@ -543,7 +579,7 @@ def build_unit(unit: Unit, outdir, repo=None):
                      sha256=_sha(orig), gen_lines=[a, b], tags=f.tags,
                      ensures_tags=_clauses(f.ensures), requires_tags=_clauses(f.requires),
                      invariant_tags=[t for inv in f.loops if inv for t in _clauses(inv)],
-                     hint_asserts=sum(p.count('assert') for _, p in f.hints),
+                     hint_asserts=sum(h[1].count('assert') for h in f.hints),
                      rule_applications=log, canary_lines=None)
         if f.canary:
             chead = re.sub(r'\bfn %s\b' % re.escape(ename), 'fn ' + ename + '__canary', head, count=1)
@@ -553,7 +589,7 @@ def build_unit(unit: Unit, outdir, repo=None):
         prov['items'].append(dict(kind='fn', **{k: entry[k] for k in ('name', 'impl', 'src', 'src_lines', 'sha256', 'gen_lines', 'rule_applications')}))
         for lift, cbody in lifted2:
             lhead = 'fn %s%s(%s%s)' % (lift.name, lift.generics, lift.params,
-                                        (', Tracked(fx): Tracked<&mut %s>' % unit.fx_type) if lift.fx else '')
+                                        (', Tracked(fx): Tracked<&mut %s>' % fx_type) if lift.fx else '')
             cbody = add_pre(cbody, lift.pre)
             la, lb = gen.add(render(lhead, lift.ret, lift.ret_name, '', lift.requires, lift.ensures, cbody))
             lentry = dict(name=f.name + '{closure:' + lift.name + '}', emit_name=lift.name, impl=impl_header, src=f.src,
@@ -565,21 +601,36 @@ def build_unit(unit: Unit, outdir, repo=None):
             lentry['canary_lines'] = [ca, cb]
             fn_table.append(lentry)
 
-    def emit_parts(parts, impl_header=None):
+    hoisted = []
+
+    def emit_parts(parts, impl_header=None, fx_type=None):
         for p in parts:
             if isinstance(p, Raw):
                 gen.add(p.text)
             elif isinstance(p, TypeItem):
                 emit_type(p)
             elif isinstance(p, Fn):
-                emit_fn(p, impl_header)
+                emit_fn(p, impl_header, fx_type)
             elif isinstance(p, Impl):
                 gen.add(p.header + ' {')
-                emit_parts(p.parts, p.header)
+                emit_parts(p.parts, p.header, p.fx_type)
                 gen.add('}')
+                while hoisted:
+                    gen.add(hoisted.pop(0))
             else:
                 raise ExtractError('unknown part %r' % (p,))
 
+    for (gsrc, gimpl, gname, grx) in unit.accessor_guards:
+        gtext, gmasked = src(gsrc)
+        try:
+            _, ibo, ibc = rl.find_impl(gtext, gmasked, gimpl)
+            gl = rl.find_fn(gtext, gmasked, gname, ibo, ibc)
+        except rl.LexError as ex:
+            raise ExtractError('R3 guard: accessor %s: %s' % (gname, ex))
+        gbody = gtext[gl['body_open']:gl['body_close'] + 1]
+        if not re.fullmatch(grx, gbody.strip()):
+            raise ExtractError('R3 guard: accessor %s is no longer the bare projection: %s' % (gname, ' '.join(gbody.split())))
+        prov['rules_global'].append(dict(rule='R3:guard', accessor=gname, body=' '.join(gbody.split())))
     emit_parts(unit.parts)
     for l in unit.lemmas:
         t = _read(os.path.join(VERIF, 'lemmas', l))
